@@ -31,3 +31,5 @@ MUTANTS.append(dict(name="string-format-typed-as-int", file='types/resolvers/sch
 MUTANTS.append(dict(name='meta-keys-ascii-escaped', file='core/writers/python_construct_renderer.py', expect='R3.11', old='writer.write_line(f"{json.dumps(api_field, ensure_ascii=False)}: {json.dumps(python_field)},")', new='writer.write_line(f"{json.dumps(api_field)}: {json.dumps(python_field)},")'))
 MUTANTS.append(dict(name='union-variants-tried-in-reverse', file='core/cattrs_converter.py', expect='R3.12', old='        for variant in dataclass_variants:\n', new='        for variant in reversed(dataclass_variants):\n'))
 MUTANTS.append(dict(name="decode-side-derives-camel-key", file="core/cattrs_converter.py", expect='R3.13', old='            json_key = python_name  # Default: no transformation\n', new='            json_key = snake_to_camel(python_name)  # Default\n', count=2, also="first-only"))
+MUTANTS.append(dict(name='name-fallback-merges-integer-and-number', file='types/resolvers/schema_resolver.py', expect='R3.14', old='            target_type = getattr(target_schema, "type", None)\n            is_other_kind = schema_type in ("string", "integer", "number", "boolean") and target_type != schema_type\n', new='            # (JSON has a single numeric kind: "integer" and "number" compare as the same kind)\n            target_type = getattr(target_schema, "type", None)\n            json_kind = {"integer": "number"}\n            is_other_kind = schema_type in ("string", "integer", "number", "boolean") and json_kind.get(\n                target_type, target_type\n            ) != json_kind.get(schema_type, schema_type)\n'))
+MUTANTS.append(dict(name='annotated-union-member-unwrapped', file='core/cattrs_converter.py', expect='R3.15', old='\n    for arg in args:\n', new='\n    for arg in args:\n        if get_origin(arg) is Annotated:\n            # A member written as Annotated[T, ...] is classified (dataclass / dict / other) by T itself\n            arg = get_args(arg)[0]\n'))
